@@ -8,7 +8,8 @@ import PegVerif.Generated.PegGrammar
       text ──evalF (PEG semantics of the REGENERATED grammar of peg.peg, after `linkGrammar`)──▶ forest
            ──postorderL──▶ tokens ──execute (runtime `Execute()`)──▶ action events (name, text)
            ──action code of the event's action, parsed as `p.Method(arg)` statements──▶ builder calls
-           ──builder (`tree.Add*` of tree/peg.go:351-445 transcribed)──▶ top-level node list
+           ──builder (`tree.Add*` of tree/peg.go:351-445 transcribed)──▶ top-level node list + `t.errs`
+           ──first statement of `Compile`──▶ the node list, or the recorded errors (`errors.Join(t.errs...)`)
 
   There is no hand-written parser of the .peg language here: the only parser is `evalF` running
   `pegFrontRules` (Generated/PegGrammar.lean, rebuilt from /repo/peg.peg on every run).
@@ -83,13 +84,16 @@ instance : Monad Out where
   pure := .ok
   bind := Out.bind
 
-/-- `*Tree` as far as the builder methods use it: the embedded `node` deque and `RulesCount`. -/
+/-- `*Tree` as far as the builder methods use it: the embedded `node` deque, `RulesCount`, and
+    `errs` (the messages of the errors recorded while the tree is built, oldest first; `Compile`
+    returns them joined before it does anything else). -/
 structure BState where
   items : List Node
   rulesCount : Nat
+  errs : List (List Sym)
 deriving Repr, Inhabited
 
-def BState.init : BState := ⟨[], 0⟩
+def BState.init : BState := ⟨[], 0, []⟩
 
 def BState.pushFront (st : BState) (n : Node) : BState := { st with items := n :: st.items }
 def BState.pushBack (st : BState) (n : Node) : BState := { st with items := st.items ++ [n] }
@@ -97,6 +101,8 @@ def BState.popFront (st : BState) : Out (Node × BState) :=
   match st.items with
   | [] => .panic "tree is empty"
   | n :: rest => .ok (n, { st with items := rest })
+/-- `t.errs = append(t.errs, e)`, `e` given by its message. -/
+def BState.addErr (st : BState) (msg : List Sym) : BState := { st with errs := st.errs ++ [msg] }
 
 /-! ### Go library functions used by the builder -/
 
@@ -159,6 +165,38 @@ def parseInt32 (base : Nat) (s : List Sym) : Int :=
   | 45 :: r => parseMag32 base true r
   | r => parseMag32 base false r
 
+/-- `_, err := strconv.ParseInt(s, base, 32)` after the optional sign: is `err != nil`?  Syntax
+    errors (no digit, invalid digit) and range errors (a magnitude of `2^31` or more; `-2^31` fits). -/
+def parseMagErr32 (base : Nat) (neg : Bool) (ds : List Sym) : Bool :=
+  match ds with
+  | [] => true
+  | _ =>
+    match digitsVal base ds 0 with
+    | none => true
+    | some v =>
+      let un := if v > 4294967295 then 4294967295 else v
+      if neg then decide (un > 2147483648) else decide (un ≥ 2147483648)
+
+/-- `_, err := strconv.ParseInt(s, base, 32)`: `err != nil`. -/
+def parseIntErr32 (base : Nat) (s : List Sym) : Bool :=
+  match s with
+  | 43 :: r => parseMagErr32 base false r
+  | 45 :: r => parseMagErr32 base true r
+  | r => parseMagErr32 base false r
+
+/-- `utf8.ValidRune(rune(x))` for an int64 `x` that fits in int32: a Unicode code point, i.e. in
+    `[0, 0x10FFFF]` and not a surrogate. -/
+def validRune (x : Int) : Bool :=
+  match x with
+  | .ofNat n => decide (n < 0xD800) || (decide (0xDFFF < n) && decide (n ≤ 0x10FFFF))
+  | .negSucc _ => false
+
+def symsOf (s : String) : List Sym := s.toList.map Char.toNat
+
+/-- `fmt.Errorf("escape \\0x%s is not a Unicode code point", text).Error()` -/
+def hexErrMsg (text : List Sym) : List Sym :=
+  symsOf "escape \\0x" ++ text ++ symsOf " is not a Unicode code point"
+
 /-- `string(rune(x))` for an int64 `x` that fits in int32: the one-rune string, U+FFFD for
     surrogates and values outside `[0, 0x10FFFF]`. -/
 def runeOfInt (x : Int) : Sym :=
@@ -215,7 +253,10 @@ def Op.apply : Op → BState → Out BState
     let lo ← toLowerS s
     let up ← toUpperS s
     addList .alternate (addCharacterS up (addCharacterS lo st))
-  | .addHexaCharacter s, st => .ok (addCharacterS [runeOfInt (parseInt32 16 s)] st)
+  | .addHexaCharacter s, st =>
+    let hexa := parseInt32 16 s
+    let st1 := if parseIntErr32 16 s || !validRune hexa then st.addErr (hexErrMsg s) else st
+    .ok (addCharacterS [runeOfInt hexa] st1)
   | .addOctalCharacter s, st => .ok (addCharacterS [runeOfInt (parseInt32 8 s)] st)
   | .addPredicate s, st => .ok (st.pushFront (.leaf .predicate s))
   | .addStateChange s, st => .ok (st.pushFront (.leaf .stateChange s))
@@ -369,8 +410,6 @@ def parseAction (code : String) : Option (List Call) :=
   let cs := codeSyms code
   parseCalls (cs.length + 1) cs
 
-def symsOf (s : String) : List Sym := s.toList.map Char.toNat
-
 /-- Bind a call to a builder method; `none` for an unknown method or a wrong argument shape. -/
 def Call.toOp (c : Call) (text : List Sym) : Option Op :=
   let m := String.ofList (c.method.map Char.ofNat)
@@ -426,7 +465,18 @@ inductive FrontResult where
   | panic (msg : String)
   | unsupported (msg : String)
   | ok (top : List Node)
+  /-- The text parses, but the builder recorded errors (`t.errs`, their messages oldest first):
+      `Compile` returns `errors.Join(t.errs...)` before doing anything else. -/
+  | invalid (errs : List (List Sym))
 deriving Repr, Inhabited
+
+/-- The first statement of `Compile` (`if err := errors.Join(t.errs...); err != nil { return err }`,
+    `Join` of no errors is nil): the tree goes on to the generator only if the builder recorded no
+    error. -/
+def BState.finish (st : BState) : FrontResult :=
+  match st.errs with
+  | [] => .ok st.items
+  | e :: es => .invalid (e :: es)
 
 /-- The action table: rule name `ActionN` ↦ parsed calls (`none`: code not understood). -/
 def actionTable (L : Linked) : List (String × Option (List Call)) :=
@@ -485,7 +535,7 @@ def frontCore (G : Grammar) (acts : List String) (tbl : List (String × Option (
     | none => .unsupported "capture out of range"
     | some evs =>
       match runEvents tbl evs BState.init with
-      | .ok st => .ok st.items
+      | .ok st => st.finish
       | .panic m => .panic m
       | .unsupported m => .unsupported m
 
@@ -496,10 +546,17 @@ def frontWith (L : Linked) (entry : String) (text : List Sym) (fuel : Nat) : Fro
   else if L.G.rules.any (fun r => r.body.hasPred) then .unsupported "peg.peg uses a semantic predicate"
   else frontCore L.G (L.actions.map (·.1)) (actionTable L) entry text fuel
 
-/-- The code point an escape spelling denotes: rule `Escape` of `G` must consume exactly the
-    spelling, and its action must leave exactly one Character node with a one-rune string. -/
+/-- What an escape spelling means to the front end. -/
+inductive EscDen where
+  | cp (c : Sym)                      -- it denotes this code point
+  | err (msgs : List (List Sym))      -- it is reported: `Compile` returns these errors
+deriving Repr, Inhabited, DecidableEq
+
+/-- The meaning of an escape spelling: rule `Escape` of `G` must consume exactly the spelling, and
+    its action must leave exactly one Character node with a one-rune string; the escape denotes
+    that rune if the builder recorded no error, else it is reported (`BState.finish`). -/
 def frontCharCore (G : Grammar) (acts : List String) (tbl : List (String × Option (List Call)))
-    (sp : List Sym) : Option Sym :=
+    (sp : List Sym) : Option EscDen :=
   match evalF G (fun _ _ => false) sp 64 (.name "Escape") 0 with
   | some (.ok p forest, _) =>
     if p = sp.length then
@@ -507,9 +564,10 @@ def frontCharCore (G : Grammar) (acts : List String) (tbl : List (String × Opti
       | some evs =>
         match runEvents tbl evs BState.init with
         | .ok st =>
-          match st.items with
-          | [Node.mk .character [c] _ []] => some c
-          | _ => none
+          match st.items, st.errs with
+          | [Node.mk .character [c] _ []], [] => some (.cp c)
+          | [Node.mk .character [_] _ []], e :: es => some (.err (e :: es))
+          | _, _ => none
         | _ => none
       | none => none
     else none
@@ -519,13 +577,13 @@ def pegEntry : String := match pegFrontRules with
   | r :: _ => r.name
   | [] => ""
 
-/-- MODEL of `p.Init(); p.Parse(); p.Execute()` of main.go on the runes of a text: the PEG
-    semantics of the checked-in grammar plus the builder. -/
+/-- MODEL of `p.Init(); p.Parse(); p.Execute()` of main.go on the runes of a text, and of the first
+    statement of `p.Compile(…)`: the PEG semantics of the checked-in grammar plus the builder. -/
 def frontModel (text : List Sym) (fuel : Nat) : FrontResult :=
   frontWith (linkGrammar pegFrontRules) pegEntry text fuel
 
-/-- The code point the front end assigns to an escape spelling (`none`: not an escape). -/
-def frontChar (sp : List Sym) : Option Sym :=
+/-- The meaning the front end assigns to an escape spelling (`none`: not an escape). -/
+def frontChar (sp : List Sym) : Option EscDen :=
   let L := linkGrammar pegFrontRules
   frontCharCore L.G (L.actions.map (·.1)) (actionTable L) sp
 
@@ -560,10 +618,17 @@ mutual
     | n :: ns => n.toJson ++ "," ++ Node.toJsonL ns
 end
 
+/-- `errors.Join(errs...).Error()`: the messages separated by newlines. -/
+def joinLines : List (List Sym) → List Sym
+  | [] => []
+  | [e] => e
+  | e :: es => e ++ 10 :: joinLines es
+
 def FrontResult.toJson : FrontResult → String
   | .syntaxError => "{\"syntaxError\":true}"
   | .panic m => "{\"panic\":" ++ jsonStr m ++ "}"
   | .unsupported m => "{\"unsupported\":" ++ jsonStr m ++ "}"
   | .ok top => "{\"tree\":[" ++ Node.toJsonL top ++ "]}"
+  | .invalid errs => "{\"compileError\":" ++ jsonSyms (joinLines errs) ++ "}"
 
 end PegVerif
